@@ -203,7 +203,7 @@ impl Property for C14 {
         }
     }
     fn rule(&self) -> &'static str {
-        "one run = one generated (document, encoding) with full-capture observers x schedule family (every 1-cut, sampled k-cuts, bytewise, empty writes); every reported range is sliced from the original input and validated with an independent single-token parser (tag / comment / doctype / attribute name and value), ranges must tile the document (gaps are text nodes or the token-less CDATA markers), text chunk ranges must be contiguous and cover their node, and all ranges must be identical under every schedule and when earlier content is rewritten by inserting handlers; non-trivial = markup present and a cut strictly inside the document; distinct by scenario fingerprint"
+        "(1 case in 6 is re-run twice more: with handlers that insert bulky content before every token, and with handlers that rewrite every tag / comment / end tag twice before a later handler and a re-read report its range; both must report the ranges of the untouched run) one run = one generated (document, encoding) with full-capture observers x schedule family (every 1-cut, sampled k-cuts, bytewise, empty writes); every reported range is sliced from the original input and validated with an independent single-token parser (tag / comment / doctype / attribute name and value), ranges must tile the document (gaps are text nodes or the token-less CDATA markers), text chunk ranges must be contiguous and cover their node, and all ranges must be identical under every schedule and when earlier content is rewritten by inserting handlers; non-trivial = markup present and a cut strictly inside the document; distinct by scenario fingerprint"
     }
     fn assumptions(&self) -> Vec<&'static str> {
         vec![
@@ -426,6 +426,53 @@ impl Property for C14 {
                 return Ok(Err(Fail::new("C14.schedule_free", "ranges change when earlier content is rewritten".into())));
             }
             st.bump("c14.rewrite_earlier_compared");
+            // ---- ... nor on how often the token itself was rewritten before the range is read ----
+            let mut m2 = sc.clone();
+            m2.handlers = vec![
+                HandlerSpec::Doctype { remove: false },
+                HandlerSpec::Comment { sel: None, ops: vec![CmOp::SetText("a".into()), CmOp::SetText("b".into())] },
+                HandlerSpec::Text { sel: None, ops: vec![], when: TextWhen::Always },
+                HandlerSpec::Element {
+                    sel: "*".into(),
+                    ops: vec![
+                        ElOp::SetAttr("data-verif".into(), "1".into()),
+                        ElOp::SetAttr("data-verif2".into(), "2".into()),
+                        ElOp::SetTagName("zz".into()),
+                        ElOp::OnEndTag(vec![EtOp::SetName("q".into()), EtOp::SetName("zz".into())]),
+                        ElOp::Snapshot,
+                    ],
+                },
+                // second readers of the same tokens, after the rewrites above
+                HandlerSpec::Comment { sel: None, ops: vec![] },
+                HandlerSpec::Element { sel: "*".into(), ops: vec![ElOp::OnEndTag(vec![])] },
+            ];
+            let h2 = driver::run(&m2).map_err(HarnessError)?;
+            st.evaluations += 1;
+            use std::collections::BTreeSet;
+            let mut seen: BTreeSet<(&'static str, Loc)> = BTreeSet::new();
+            for e in &h2.evs {
+                match e {
+                    Ev::Handler { unit, .. } | Ev::Reread { unit, .. } => match unit {
+                        Unit::Text { .. } | Unit::DocEnd => {}
+                        Unit::Element { loc, .. } => {
+                            seen.insert(("element", *loc));
+                        }
+                        other => {
+                            if let Some(l) = other.loc() {
+                                seen.insert((other.kind(), l));
+                            }
+                        }
+                    },
+                    _ => {}
+                }
+            }
+            let base: BTreeSet<(&'static str, Loc)> = locs.iter().map(|e| (e.1, e.2)).collect();
+            if seen != base {
+                let extra: Vec<_> = seen.difference(&base).take(4).collect();
+                let missing: Vec<_> = base.difference(&seen).take(4).collect();
+                return Ok(Err(Fail::new("C14.schedule_free", format!("ranges read after the token itself was rewritten (twice) differ from the ranges of the untouched run: reported only then {extra:?}, never reported then {missing:?}"))));
+            }
+            st.bump("c14.rewrite_self_compared");
         }
         Ok(Ok(()))
     }
